@@ -33,7 +33,7 @@ def configs(tier, seed):
                                  weight=10 ** (n + nu) * 4, wstride=53))
     # state-injected: arbitrary forest (symbolic costs and labels, every conquest order with non-decreasing
     # cost -- the post-condition C01 establishes), one or two symbolic queries
-    for n in ([2, 3, 4, 5] if tier == "quick" else [2, 3, 4, 5, 6, 7]):
+    for n in ([2, 3, 4, 5] if tier == "quick" else [2, 3, 4, 5, 6]):
         for branch in ("pre", "fn"):
             if n >= 6 and branch == "fn":
                 continue
@@ -50,7 +50,7 @@ def signature(prop, cfg, viol):
 def describe(v, tier):
     v.bounds = dict(n_training_samples="2..4 (quick) / 2..5 (thorough)", queries_per_batch="1..2",
                     harness="end-to-end: real fit, then real predict on symbolic query distance vectors; and state-injected: "
-                            "arbitrary forest with n<=5 (quick) / n<=7 (thorough) nodes, symbolic costs/labels, every cost-compatible conquest order",
+                            "arbitrary forest with n<=5 (quick) / n<=6 (thorough) nodes, symbolic costs/labels, every cost-compatible conquest order",
                     weight_branches=["pre_computed_distance matrix", "distance_fn callable"])
     v.assumptions = ["0 <= W[i][j] < sys.float_info.max, symmetric; query distances are further free entries of W "
                      "(equal to training distances, tied and arbitrarily large values are all allowed)"]
